@@ -54,6 +54,10 @@ def c09(ctx):
     entries = inv.entries_exported("msi") + [f for f in prog.fns.values() if f.crate == "msi_ffi" and f.kind == "Fn"]
     n = inv.run(ctx, "PANIC", entries, label="the public API (open, reads, mutators+flush, ffi exports)")
     ctx.floor("PANIC", "potential panic sites reachable from the public API", n, 120)
+    from .rules import alloc
+    alloc.run(ctx, entries)
+    from .rules import loops
+    loops.run(ctx, entries)
     ctx.assume(EXT_ASSUME)
     return ctx.finish(explanation="panic-edge inventory over MIR of msi and msi_ffi, reachability from every exported function; "
                       "each site discharged by a guard rule, justified, or reported")
